@@ -9,6 +9,7 @@ package dastard
 
 import (
 	"fmt"
+	"math"
 	"sort"
 	"testing"
 
@@ -21,6 +22,12 @@ func c02Gen(t *rapid.T) vPipeCase {
 	c.Npre, c.Nsamp = vGenLengths(t)
 	c.F0 = vGenF0(t)
 	c.PeriodNs = rapid.SampledFrom([]int64{1000, 6400, 320, 1001}).Draw(t, "period")
+	if rapid.IntRange(0, 4).Draw(t, "oddrate") == 0 {
+		// a sample rate whose period is not a whole number of nanoseconds: the blocks carry the rounded period, the auto
+		// delay is counted in samples of the true rate
+		c.RateHz = rapid.SampledFrom([]float64{408163265.3, 134228187.9, 289855072.5, 392156862.7, 3e6, 7e6, 150e6}).Draw(t, "ratehz")
+		c.PeriodNs = int64(math.Round(1e9 / c.RateHz))
+	}
 	total := rapid.IntRange(3*c.Nsamp, 40*c.Nsamp).Draw(t, "total")
 	c.Blocks = vGenPartition(t, c.Npre, c.Nsamp, total)
 	for ch := 0; ch < c.Nchan; ch++ {
@@ -94,6 +101,18 @@ func c02Gen(t *rapid.T) vPipeCase {
 			npre, nsamp = np, ns
 		}
 	}
+	// Another channel group-triggers one of the judged channels: the secondary records it receives are not triggers of its
+	// own and must not change which of its own pulses are found.
+	if c.Nchan >= 2 && guard < 0 && rapid.IntRange(0, 3).Draw(t, "connect") == 0 {
+		src := rapid.IntRange(0, c.Nchan-1).Draw(t, "consrc")
+		rx := (src + 1 + rapid.IntRange(0, c.Nchan-2).Draw(t, "conrx")) % c.Nchan
+		cat := 0
+		if len(c.Blocks) > 1 && rapid.Bool().Draw(t, "conlate") {
+			cat = rapid.IntRange(0, len(c.Blocks)-1).Draw(t, "conat")
+		}
+		c.Hist = append(c.Hist, vHistOp{At: cat, Kind: "connect", Src: src, Rx: []int{rx}})
+		sort.SliceStable(c.Hist, func(a, b int) bool { return c.Hist[a].At < c.Hist[b].At })
+	}
 	return c
 }
 
@@ -106,10 +125,17 @@ func c02Run(c vPipeCase) (v vVerdict) {
 	if !c.valid() {
 		return v
 	}
+	connected := false
 	emtChan := map[int]bool{} // channels that ever ran edge-multi: present, but their triggers are C08's business (not judged here at all)
 	for _, h := range c.Hist {
-		if h.Kind != "trigger" && h.Kind != "lengths" && h.Kind != "trylengths" {
+		if h.Kind != "trigger" && h.Kind != "lengths" && h.Kind != "trylengths" && h.Kind != "connect" {
 			return v
+		}
+		if h.Kind == "connect" {
+			connected = true
+			if h.Src < 0 || h.Src >= c.Nchan || len(h.Rx) != 1 || h.Rx[0] < 0 || h.Rx[0] >= c.Nchan || h.Rx[0] == h.Src {
+				return v
+			}
 		}
 		if h.Kind == "trigger" && h.Trig.EMT {
 			for _, ch := range h.Chans {
@@ -131,7 +157,7 @@ func c02Run(c vPipeCase) (v vVerdict) {
 		for ch := range tr.Blocks[k].Primary {
 			n += len(tr.Blocks[k].Primary[ch])
 		}
-		if n != len(recs) {
+		if n != len(recs) && !(connected && n < len(recs)) { // with a group-trigger connection there are secondary records as well
 			f := vFailf("record-vs-trigger-count", "block %d: %d primary triggers but %d records published", k, n, len(recs))
 			return &f
 		}
@@ -284,6 +310,10 @@ func c02Run(c vPipeCase) (v vVerdict) {
 			if cfg.Auto && cfg.AutoVeto == 0 {
 				D := int(cfg.AutoDelayNs / c.PeriodNs)
 				bound := int64(maxInt(D, nsamp) + nsamp)
+				if c.RateHz > 0 { // the delay is so many samples of the true rate (one more for rounding at a half)
+					D = int(float64(cfg.AutoDelayNs)*1e-9*c.RateHz + 0.5)
+					bound = int64(maxInt(D, nsamp) + nsamp + 1)
+				}
 				prev := int64(lo) // a first trigger is due within one bound of the first decidable sample
 				for _, g := range mine {
 					if g-prev > bound && prev >= int64(lo) {
@@ -306,6 +336,12 @@ func c02Run(c vPipeCase) (v vVerdict) {
 	}
 	if c.SlowPub {
 		classes["slow-publisher"] = true
+	}
+	if connected {
+		classes["group-trigger-receiver"] = true
+	}
+	if c.RateHz > 0 {
+		classes["odd-sample-rate"] = true
 	}
 	for k := range classes {
 		v.Classes = append(v.Classes, k)
